@@ -1212,7 +1212,7 @@ def run(tier, seed):
         # common.prop_check counts by file time stamps; the spec file's text does not change when only a
         # method body changed, so count precisely: everything before the first failing lemma
         import re
-        mline = re.search(r'File "\./(Gen/PropLibSpec\.v|[\w/]+\.v)", line (\d+)', P['log'])
+        mline = re.search(r'File "\./([\w/]+\.v)", line (\d+), characters [\d-]+:\s*\nError', P['log'])
         if mline:
             f_bad, ln = mline.group(1), int(mline.group(2))
             good = 0
